@@ -370,6 +370,80 @@ func features(n *x.Node) (bits int, kinds map[string]bool, hasFor, hasSplat, has
 	return
 }
 
+// keyForm names the spelling class of an object-constructor key (label objkey:<form>).
+func keyForm(it x.Item) string {
+	switch it.KS {
+	case "ident":
+		switch it.Name {
+		case "true", "false", "null", "for", "if", "in", "else", "endif", "endfor":
+			return "bare-keyword"
+		}
+		return "bare-name"
+	}
+	e := it.KeyE
+	pre := "paren-"
+	if it.KS != "expr" {
+		pre = ""
+	}
+	if e == nil {
+		return pre + "nil"
+	}
+	switch e.K {
+	case x.KVar:
+		return pre + "name"
+	case x.KNull, x.KBool:
+		return pre + "keyword"
+	case x.KNum:
+		return pre + "num"
+	case x.KTmpl:
+		var lits, interps int
+		var only *x.Node
+		first := ""
+		for _, p := range e.Parts {
+			switch p.K {
+			case x.PLit:
+				if p.S != "" {
+					lits++
+					if first == "" {
+						first = "lit"
+					}
+				}
+			case x.PInterp:
+				interps++
+				only = p.E
+				if first == "" {
+					first = "interp"
+				}
+			default:
+				return pre + "tmpl-directive"
+			}
+		}
+		switch {
+		case interps == 0:
+			return pre + "quoted-literal"
+		case interps == 1 && lits == 0:
+			switch only.K {
+			case x.KVar:
+				return pre + "tmpl-one-name"
+			case x.KNull, x.KBool:
+				return pre + "tmpl-one-keyword"
+			case x.KAttr, x.KIndex:
+				return pre + "tmpl-one-traversal"
+			}
+			return pre + "tmpl-one-expr"
+		case interps == 1 && lits == 1 && only.K == x.KVar && first == "interp":
+			if strings.HasSuffix(e.Parts[len(e.Parts)-1].S, "\n") {
+				return pre + "tmpl-name-newline(heredoc-able)"
+			}
+			return pre + "tmpl-name-suffix"
+		case interps == 1 && lits == 1 && only.K == x.KVar:
+			return pre + "tmpl-prefix-name"
+		}
+		return pre + "tmpl-mixed"
+	}
+	return pre + "expr"
+}
+
 func classify(c Case) core.Class {
 	var cl core.Class
 	if c.Root == nil {
@@ -415,6 +489,20 @@ func classify(c Case) core.Class {
 	for k := range kinds {
 		cl.Labels = append(cl.Labels, "node:"+k)
 	}
+	keyForms := map[string]bool{}
+	x.Walk(c.Root, func(m *x.Node) {
+		if m.K == x.KObj {
+			for _, it := range m.Items {
+				keyForms[keyForm(it)] = true
+			}
+		}
+		if m.K == x.KIndex && m.B2 != nil && m.B2.K == x.KVar {
+			keyForms["(index-by-variable)"] = true
+		}
+	})
+	for k := range keyForms {
+		cl.Labels = append(cl.Labels, "objkey:"+k)
+	}
 	if c.Probe != "" {
 		cl.Labels = append(cl.Labels, "class:probe-"+c.Probe)
 	}
@@ -457,7 +545,7 @@ func faultClass(k string) string {
 	return k
 }
 
-const ruleCommon = "environment of 0-6 variables (numbers incl. dyadic fractions and 2^40, strings incl. numeric/boolean-looking and non-ASCII, bools, nulls, tuples, lists, objects, maps), 0-3 functions defined through ext/userfunc blocks (may call earlier ones, variadic, closures over the variables) plus tryfunc try/can; a typed tree of depth<=6 over literals, variables, unary/binary arithmetic, comparison, equality across types, logic, conditional (same-typed, null, string-unification branches), tuple/object constructors (bare/quoted/computed keys), index (literal, computed, string key), attribute, attribute-only and full splat (incl. traversal inside the splat vs applied to its result, splat of null / single value / list), for-expressions (tuple and object form, key+value variables, if, grouping), calls (incl. argument expansion), templates (literal, ${}, %{if/else}, %{for}, ~ strip markers, passthrough of a single interpolation); with probability 0.35 one node is replaced by an ill-typed variant (16 kinds: ill-typed operator, undefined variable/function, missing attribute, index out of range / negative / fractional / into a primitive, duplicate key without grouping, null or non-primitive in a template, null operand, wrong arity, for over a primitive, non-boolean condition, bad expansion); about 0.4% of the expression roots are a fixed-shape probe (for-expression whose if clause holds a conditional that unifies only for the real key type) that meets the known early-condition-check finding. Every tree is printed 2-3 times: canonical minimal spelling and random spellings (redundant parentheses, spacing, tabs, newlines and # // /* */ comments where insignificant, ':' vs '=' and newline vs comma in object constructors, trailing commas, x.0 vs x[0], .* vs [*], number spellings 1e3 / 2.50 / 25e-1, \\xHH byte escapes (the fork's own escape), quoted vs heredoc vs flush heredoc with extra indentation). Oracle: all printings RawEqual and same error-ness; reference evaluator (exact rationals) says value => no error diagnostic and same value+type; says error => error diagnostic; trees leaving the documented semantics (README.md) are checked metamorphically only. Non-trivial: an operator with an unparenthesised operand of another precedence level in the minimal spelling, or a for-expression / splat / template directive; distinct = (feature set: operators, conditional, access/splat, for, call, template | depth bucket | fault kind | set of printing modes)"
+const ruleCommon = "environment of 0-6 variables (numbers incl. dyadic fractions and 2^40, strings incl. numeric/boolean-looking and non-ASCII, bools, nulls, tuples, lists, objects, maps), 0-3 functions defined through ext/userfunc blocks (may call earlier ones, variadic, closures over the variables) plus tryfunc try/can; a typed tree of depth<=6 over literals, variables, unary/binary arithmetic, comparison, equality across types, logic, conditional (same-typed, null, string-unification branches), tuple/object constructors (keys as bare literal name incl. true/false/null/if/for, quoted literal, number, operator expression, (k), \"${k}\", \"${k}x\", \"x${k}\", \"${k.a}\", heredoc-able \"${k}\\n\" with k a variable / for iterator / undefined name / null / keyword / non-primitive; selector variables named like one field and valued like another), index (literal, computed, string key, by variable obj[b] vs obj.b), attribute, attribute-only and full splat (incl. traversal inside the splat vs applied to its result, splat of null / single value / list), for-expressions (tuple and object form, key+value variables, if, grouping), calls (incl. argument expansion), templates (literal, ${}, %{if/else}, %{for}, ~ strip markers, passthrough of a single interpolation); with probability 0.35 one node is replaced by an ill-typed variant (16 kinds: ill-typed operator, undefined variable/function, missing attribute, index out of range / negative / fractional / into a primitive, duplicate key without grouping, null or non-primitive in a template, null operand, wrong arity, for over a primitive, non-boolean condition, bad expansion); about 0.4% of the expression roots are a fixed-shape probe (for-expression whose if clause holds a conditional that unifies only for the real key type) that meets the known early-condition-check finding. Every tree is printed 2-3 times: canonical minimal spelling and random spellings (redundant parentheses, spacing, tabs, newlines and # // /* */ comments where insignificant, ':' vs '=' and newline vs comma in object constructors, trailing commas, x.0 vs x[0], .* vs [*], number spellings 1e3 / 2.50 / 25e-1, \\xHH byte escapes (the fork's own escape), quoted vs heredoc vs flush heredoc with extra indentation). Oracle: all printings RawEqual and same error-ness; reference evaluator (exact rationals) says value => no error diagnostic and same value+type; says error => error diagnostic; trees leaving the documented semantics (README.md) are checked metamorphically only. Non-trivial: an operator with an unparenthesised operand of another precedence level in the minimal spelling, or a for-expression / splat / template directive; distinct = (feature set: operators, conditional, access/splat, for, call, template | depth bucket | fault kind | set of printing modes)"
 
 var assumptions = []string{
 	"number literals are integers or dyadic fractions so that cty's 512-bit floats are exact; results needing more than 300 bits, non-dyadic quotients, division by zero, modulo outside naturals are not compared with the reference",
